@@ -457,7 +457,7 @@ def rule_type_layout(chk, prog, tier):
     def work(job):
         kind, pack, part = job
         return kind, pack, c06.run_layout(prog, part, kind, pack=pack, mtype_fn=mtype, after=after)
-    nbad = {}; first = {}; nok = 0
+    nbad = {}; first = {}; nok = 0; cbad = {}
     for kind, pack, res in par.pmap(work, jobs):
         for si, (outcome, val) in res.items():
             seq = seqs[si]
@@ -500,6 +500,31 @@ def rule_type_layout(chk, prog, tier):
                         if not fl: probs.append('byte %d of member %s (offset %d) is not covered by any field' % (b, ty, lo)); break
                         if wf is None and any(c_ in 'sd' for o, s_, c_ in fl): probs.append('byte %d of integer member %s lies in a floating field' % (b, ty)); break
                         if wf is not None and not any(c_ == wf for o, s_, c_ in fl): probs.append('byte %d of member %s should lie in a %s field' % (b, ty, wf)); break
+            # register class per eightbyte (x86-64 psABI 3.2.3; unnamed bit-fields are padding and take no part): an eightbyte that holds floating members only must not get an integer-class field
+            if kind == 'struct' and not pack and last and not probs:
+                it_mem2 = iter(mem); named = []
+                for ty, wd, nm_, al in seq:
+                    if wd is not None and not nm_: continue
+                    isn_, bitpos, width = next(it_mem2)
+                    if width == 0: continue
+                    fl_ = ty in ('float', 'double', 'F2') and wd is None
+                    named.append((bitpos // 8, (bitpos + width + 7) // 8, fl_, ty))
+                # where the unnamed bit-fields lie (gcc counts their bits as INTEGER, clang ignores them: eightbytes they touch are not judged)
+                saved_ty = dict(c06.TY); c06.TY.update({'float': (4, 4), 'double': (8, 8), 'F2': (8, 4)})
+                try: allpos = c06.layout(tuple((ty, wd, True, al) for ty, wd, nm_, al in seq))[2]
+                except KeyError: allpos = None                       # members without storage (FAM, [0]): no unnamed bit-fields in those sequences
+                finally: c06.TY.clear(); c06.TY.update(saved_ty)
+                if allpos is not None and len(allpos) != len(seq): raise AnalysisBroken('layout reference lost a member of %s' % (seq,))
+                unnamed = [(p_[0], p_[0] + p_[1]) for (ty, wd, nm_, al), p_ in zip(seq, allpos or []) if wd and not nm_ and p_ is not None]
+                for eb in range(0, size if allpos is not None or not any(wd is not None and not nm_ for _, wd, nm_, _ in seq) else 0, 8):
+                    inside = [(lo, hi, fl_, ty) for lo, hi, fl_, ty in named if lo < eb + 8 and hi > eb]
+                    if not inside or not all(fl_ for _, _, fl_, _ in inside): continue
+                    if any(lo_ < (eb + 8) * 8 and hi_ > eb * 8 for lo_, hi_ in unnamed): continue
+                    ints = [(o, s_, c_) for o, s_, c_ in flat if o < eb + 8 and o + s_ > eb and c_ not in 'sd']
+                    if ints:
+                        cbad['n'] = cbad.get('n', 0) + 1
+                        cbad.setdefault('first', 'struct { %s } described as `%s`: bytes %d..%d hold only %s and padding, but the description has the integer field %s there' % (c06.fmt(seq), last[-1][:100], eb, eb + 7, '/'.join(t_ for _, _, _, t_ in inside), ints[0]))
+                        break
             key = (kind, pack)
             if probs:
                 nbad[key] = nbad.get(key, 0) + 1
@@ -507,6 +532,8 @@ def rule_type_layout(chk, prog, tier):
             else:
                 nok += 1
     r.n += nok; r.ok += nok
+    if cbad:
+        r.violation('type-class: padding next to floating members is described as integer bytes', 'qbe.c:typemembers', '%d member sequences: an eightbyte that holds floating members and padding only (no bit of an unnamed bit-field) is given an integer-class field (passed in a general register where the psABI, gcc and clang use an SSE register), e.g. %s' % (cbad['n'], cbad['first']))
     for key, n in nbad.items():
         r.violation('type-layout:%s%s' % ('packed ' if key[1] else '', key[0]), 'qbe.c:emittype', '%d member sequences get a description whose layout differs from the C type, e.g. %s' % (n, first[key]))
     r.samples.append('%d member sequences over an alphabet of %d member forms; plain and packed structs, unions' % (len(seqs), len(ALPHA)))
